@@ -57,6 +57,22 @@ CLAIMED.update({
    note="Deadline formula written from the documented rule. Burst re-arm is judged over 16 trials with one P because a defective timer's outcome depends on the runtime's select choice."),
 })
 
+R = "deterministic simulation: real validators + duty runners + QBFT of a whole committee driven step by step (start duty, deliveries in any order, duplicates, re-addressed and stale messages, timeouts, faulty members); "
+CLAIMED.update({
+ "C03": dict(engine="runnersim", cat="exploration", ref="DESIGN.md §3 C03",
+   technique=R + "oracle on every key-manager signing call (spy) and every partial-signature broadcast",
+   text="4 (7) real Validators with real runners for the 5 consensus roles; every SignBeaconObject call is judged: pre-consensus proofs only inside the start of that duty and bound to its slot; post-consensus objects only after a quorum certificate for the duty's height reached the operator, contained in the certified value, value passes the role's (operator-local) validity check, at most once; every broadcast partial signature must stem from such a call. Directed macros (straggler, blackout) reach eviction and late-decided paths.",
+   note="Decision certification is tracked by the simulator from valid commit/decided messages delivered (over-approximation). Key manager = spy around the spec test signer without slashing protection; one 'picky' operator has an operator-local attestation check."),
+ "C05": dict(engine="runnersim", cat="exploration", ref="DESIGN.md §3 C05",
+   technique=R + "independent BLS verification at every BeaconNode.Submit* and of every reconstructed pre-consensus signature; bounded liveness after deliveries complete",
+   text="Committees of 4/7/10/13; consensus mostly on the honest path, the schedule explores arrival orders of pre/post-consensus partial signatures with <= f members sending garbage, wrong-root, wrong-key or truncated signatures (one bad root among good ones, good-then-bad, bad-then-good, duplicates). Every object handed to the beacon node must verify under the validator key (herumi), be the operator's decided object and be submitted once; after all deliveries an operator that received 2f+1 correct shares must have submitted.",
+   note="Beacon node is a scripted stub that verifies signatures itself. Liveness judged at message granularity for multi-root duties."),
+ "C15": dict(engine="runnersim", cat="fault_enumeration", ref="DESIGN.md §3 C15",
+   technique="deterministic simulation: one operator's real runner + controller + ibft storage behind a fault-injecting database; seeded duty starts, local decisions, decided certificates for past/current/future heights and rounds, restarts and crash/error injection at the k-th storage call; reference model of the highest started/decided height",
+   text="StartDuty for a slot at or below the highest started or decided height must be refused (no instance, no broadcast), also after restart (the highest decided must survive); the stored highest decided and every stored height must never regress in (height, signer count). Crash points are sampled per operation (k-th storage call x before/after/error). Four known findings (compaction across rounds, swallowed read error, decided-below-running-height not recorded) are listed in known_findings.json.",
+   note="The simulator plays the rest of the committee with the real share keys (one value per height, so certificates never conflict). Durable state = committed writes."),
+})
+
 NOT_YET = {}
 ALL = ["C%02d" % i for i in range(1, 19)]
 NA = {
